@@ -1135,6 +1135,29 @@ func concCmd(args []string) error {
 			break // the process still holds the stuck goroutines: stop here
 		}
 	}
+	if !hang && (len(want) == 0 || want["pairs"]) {
+		rounds := 25000
+		if tier == "thorough" {
+			rounds = 120000
+		}
+		if len(focus) > 0 {
+			rounds = 40000
+		}
+		if v, err := strconv.Atoi(os.Getenv("VERIF_CONC_ROUNDS")); err == nil && v > 0 {
+			rounds = v
+		}
+		st, screened, err := runPairs(r, rounds, outdir, skip, focus, 120*time.Second)
+		if err != nil {
+			return err
+		}
+		for name, ex := range screened {
+			fmt.Fprintf(sf, "SCREENED %s %s\n", name, ex)
+		}
+		fmt.Fprintf(sf, "PHASE pairs %s\n", st)
+		if st != "OK" {
+			hang = true
+		}
+	}
 	if hang {
 		os.Exit(4)
 	}
